@@ -149,6 +149,7 @@ class World:
         self.nstart = 0
         self.calls = 0
         self.mid: Dict[int, List[str]] = {}
+        self.boot: List[Any] = []
         self.queue: Any = None
         self.pid_pool = 0
         self.last_pid = 4999
@@ -245,6 +246,8 @@ def run_manager(W: int, max_fails: int, history: List[Dict[str, Any]], startup_d
     """hosted=True: nothing about the identity of the current process is faked (used when the manager is run inside
     a real multiprocessing child, see run_manager_hosted)."""
     w = World(history, list(startup_deaths))
+    for k_, sg_ in ((history[0].get("boot") if history else None) or ()):
+        w.mid.setdefault(int(k_), []).append(sg_)       # signals that arrive while the manager is still starting its workers (before the first tick)
     w.slow = {int(k): float(v) for k, v in slow}
     w.pid_pool = int(pidpool or 0)
 
